@@ -231,6 +231,9 @@ class Program:
                         tree = ast.parse(pysrc, filename=rel)
                 except SyntaxError as e:
                     raise AnalysisError("syntax error in %s: %s" % (rel, e))
+                if os.environ.get("VERIF_CANON", "1") != "0":
+                    from .canon import canonicalise
+                    canonicalise(tree)                 # single-use temporaries folded into their use (sa/canon.py)
                 set_parents(tree)
                 self.modules[modname] = Module(
                     modname, rel, src, tree, hashlib.sha256(src.encode()).hexdigest()[:16],
